@@ -85,12 +85,12 @@ Proof.
   destruct (nth_error (subs st) s) as [c|] eqn:Ec; [|discriminate].
   destruct (spc c) eqn:Ep.
   - destruct (styps c); inversion E; subst; cbn; (apply Forall_upd; [exact H|same_e1 Ec]).
-  - otau_inv E. cbn. rewrite (take_blk_subs _ _ _ E). apply Forall_upd; [exact H|same_e1 Ec].
+  - destruct (styps c) as [tys|] eqn:Et; [|discriminate]. destruct (nth_error tys i) as [ty|]; [|discriminate].
+    destruct (with_node st ty) as [[st1 n]|] eqn:Ew; [|discriminate]. inversion E; subst. cbn.
+    rewrite (with_node_subs _ _ _ _ Ew). apply Forall_upd; [exact H|same_e1 Ec].
   - destruct (styps c) as [tys|] eqn:Et; [|discriminate].
-    destruct (nth_error tys i) as [ty|]; [|discriminate].
-    pose proof (lookup_subs st ty) as Hl. destruct (lookup st ty) as [st1 n]. cbn in Hl.
-    destruct (nth_error (nodes st1) n) as [nd|]; [|discriminate].
-    destruct (holder nd); [discriminate|]. inversion E; subst. cbn. rewrite Hl.
+    destruct (nth_error (nodes st) n) as [nd|]; [|discriminate].
+    destruct (holder nd); [discriminate|]. inversion E; subst. cbn.
     apply Forall_upd; [exact H|]. intros y Hy Py. rewrite Ec in Hy. inversion Hy; subst y.
     assert (G : forall extra, (forall n0, n0 <> n -> proj n0 extra = []) ->
               e1_ok (c_expd (c_app c (if Nat.ltb (S i) (length tys) then SBus (S i) else SRet) n) (expd c ++ extra))).
@@ -137,7 +137,7 @@ Proof.
   - destruct (nth_error (snodes c) i) as [n|]; [|discriminate].
     destruct (nth_error (nodes st) n) as [nd|]; [|discriminate].
     destruct (holder nd); [discriminate|]. inversion E; subst. cbn. apply Forall_upd; [exact H|same_e1 Ec].
-  - otau_inv E. cbn. rewrite (take_blk_subs _ _ _ E). apply Forall_upd; [exact H|same_e1 Ec].
+  - inversion E; subst. cbn. apply Forall_upd; [exact H|same_e1 Ec].
   - destruct (nth_error (snodes c) i) as [n|]; [|discriminate].
     destruct (nth_error (nodes st) n) as [nd|]; [|discriminate].
     otau_inv E. cbn. rewrite (try_drop_subs _ _ _ E). apply Forall_upd; [exact H|same_e1 Ec].
@@ -214,25 +214,21 @@ Qed.
 (* the subscribe-append step: s joins n.sinks, is promised exactly the retained
    event of n (if any), and n.lk passes to the replay goroutine; so if s had not
    joined n before, the retained event is the first n-item it is promised *)
-Lemma stateful_replay_first_l : forall st sched s c i tys ty, initial st ->
+Lemma stateful_replay_first_l : forall st sched s c i n tys nd, initial st ->
   let st1 := run step st sched in
-  nth_error (subs st1) s = Some c -> spc c = SApp i -> styps c = Some tys -> nth_error tys i = Some ty ->
-  let n := snd (lookup st1 ty) in
-  forall nd, nth_error (nodes (fst (lookup st1 ty))) n = Some nd -> holder nd = None ->
+  nth_error (subs st1) s = Some c -> spc c = SApp i n -> styps c = Some tys ->
+  nth_error (nodes st1) n = Some nd -> holder nd = None ->
   exists st2 c2 nd2, step st1 (TSub s) = Some (None, st2) /\
     nth_error (subs st2) s = Some c2 /\ nth_error (nodes st2) n = Some nd2 /\
     holder nd2 = Some (TReplay s i) /\ sinks nd2 = sinks nd ++ [s] /\
     hist c2 = hist c /\ expd c2 = expd c ++ retained nd n /\
     (~ In n (snodes c) -> proj n (expd c2) = retained nd n).
 Proof.
-  intros st sched s c i tys ty H st1 Hc Hp Ht Hty n nd Hn Hh.
+  intros st sched s c i n tys nd H st1 Hc Hp Ht Hn Hh.
   pose proof (nothing_before_join_l st sched s c n H Hc) as NB.
-  cbn. unfold step_sub. fold st1. rewrite Hc, Hp, Ht, Hty. unfold n in *. clear n.
-  pose proof (lookup_subs st1 ty) as Hl.
-  destruct (lookup st1 ty) as [stl n] eqn:El. cbn [fst snd] in *. rewrite Hn, Hh.
-  eexists. eexists. eexists. split; [reflexivity|]. cbn [subs nodes set_sub set_subs set_node set_nodes set_blk].
-  assert (Hc' : nth_error (subs stl) s = Some c) by (rewrite Hl; exact Hc).
-  rewrite (nth_error_upd_eq _ _ _ _ Hc'), (nth_error_upd_eq _ _ _ _ Hn).
+  cbn. unfold step_sub. fold st1. rewrite Hc, Hp, Ht, Hn, Hh.
+  eexists. eexists. eexists. split; [reflexivity|]. cbn [subs nodes set_sub set_subs set_node set_nodes].
+  rewrite (nth_error_upd_eq _ _ _ _ Hc), (nth_error_upd_eq _ _ _ _ Hn).
   split; [reflexivity|]. split; [reflexivity|]. split; [reflexivity|]. split; [reflexivity|].
   assert (Ht' : styps c <> None) by congruence.
   unfold retained. destruct (keep nd); [destruct (nlast nd) as [lv|]|]; cbn [hist expd c_expd c_app];
